@@ -41,6 +41,27 @@ CHECKS = {
     'C07': {'engine': 'verus', 'design_ref': 'DESIGN.md §5 C07', 'technique': 'deductive verification: Verus postconditions on extracted page.rs (Page::new byte image, from_bytes iff, size functions) + injectivity lemma',
             'text': 'Unbounded proof for all ids, all u32 widths/heights/coordinates and all candidate lengths.',
             'note': TB_VERUS + ' derived PartialEq is field-wise.'},
+    'C12': {'engine': 'kani', 'design_ref': 'DESIGN.md §5 C12', 'technique': 'Kani per-step harness from an arbitrary (unconstrained) sign state: inductive, covers every message history',
+            'text': 'Proof of the inductive step: from ANY state (no invariant assumed) ANY message is processed without a panic, overflow or failed unwrap; arbitrary 16-byte configuration blocks are digested without overflow; the bus loop is verified against the contract of the sign step for 1..4 signs. State-size bounds (buffer <= 64 bytes, <= 1 stored page) are stated in the evidence.',
+            'note': TB_KANI + ' log macros disabled (no logger installed).'},
+    'C13': {'engine': 'kani', 'design_ref': 'DESIGN.md §5 C13', 'technique': 'Kani per-step refinement of a specification state machine + inductive invariant',
+            'text': 'For every state satisfying the inductive invariant and every message, the real step equals spec_step (reply and successor state, buffer contents at an arbitrary index, stored page == buffered bytes) and preserves the invariant; the initial state satisfies it. Hence all histories.',
+            'note': TB_KANI + ' spec_step is a transcription of the protocol description.'},
+    'C14': {'engine': 'kani', 'design_ref': 'DESIGN.md §5 C14', 'technique': 'Kani sign-level frame condition + modular bus-level harness (callee replaced by its contract)',
+            'text': 'Foreign-addressed messages and unaddressed data on a non-receiving sign change nothing and get no reply (all states satisfying the invariant, all messages); the bus delivers an addressed message so that only the addressee can change and only it replies, for every population of 1..4 distinct addresses.',
+            'note': TB_KANI},
+    'C16': {'engine': 'kani', 'design_ref': 'DESIGN.md §5 C16', 'technique': 'Kani full-domain harnesses on process_message with contract stubs for Frame::read/write and an event log',
+            'text': 'Complete over all messages, replies and failure placements, given the callee contracts of Frame::write / Frame::read (assumed here, see C15).',
+            'note': TB_KANI + ' Frame::read/write contracts assumed.'},
+    'C17': {'engine': 'kani', 'design_ref': 'DESIGN.md §5 C17', 'technique': 'Kani harness on the ODK bridge step with contract stubs; end-to-end equivalence NOT mechanised',
+            'text': 'Only the per-call bridge contract is machine-checked (complete over frames read, bus answers and failures). The whole-history equivalence of the serial path and the direct path is a paper composition of C01, C04/C05, C16 and this contract; no function contract expresses it. Level other.',
+            'note': TB_KANI + ' composition step not mechanised.'},
+    'C18': {'engine': 'kani', 'design_ref': 'DESIGN.md §5 C18', 'technique': 'Kani full-domain harnesses: delay classifiers + event order over a ghost clock advanced only by thread::sleep',
+            'text': 'Complete over all messages and replies for the classifiers and the placement of the two sleeps; time itself is a ghost clock (assumption: thread::sleep(d) blocks >= d).',
+            'note': TB_KANI + ' wall-clock time is outside the model.'},
+    'C20': {'engine': 'kani', 'design_ref': 'DESIGN.md §5 C20', 'technique': 'Kani loop-free harnesses over the full product of prior settings x failure placements',
+            'text': 'Complete: Ok <=> no device call failed; Ok => 19200 8N1 no flow control and the timeout applied (5 s bus / 10 s bridge / caller value); a failure is returned, no object exists, nothing follows the failing call.',
+            'note': TB_KANI + ' mock SerialDevice; serial_core::reconfigure executed as is.'},
     'C19': {'engine': 'kani', 'design_ref': 'DESIGN.md §5 C19', 'technique': 'Kani loop-free harnesses over all 11 variants and all byte strings up to 64 bytes',
             'text': 'Complete over the 11 sign types; decoding is total and exact for every byte string of length 0..=64 with arbitrary contents (the only length-dependent operation is the != 16 test); virtual-sign derivation for all 11 types.',
             'note': TB_KANI},
